@@ -473,6 +473,21 @@ def d_pairs(rng, n, zc_threshold=4096):
     return cases
 
 
+def d_manyframes():
+    """bursts of many-frame multipart messages: one coalesced egress batch of more than 512 frames (more than 1024 iovecs,
+    the UIO_MAXIOV limit of one writev) and more than the 16 KiB flattening threshold - the io_uring worker has to cut the
+    scatter-gather list and continue with the rest (added after the seeded change C20-uring-iovec-window-drops-tail)"""
+    msgs = [[{"len": 40, "seed": (7 * m + f) % 251} for f in range(250)] for m in range(24)]
+    cases = []
+    for (sb, rb) in [("tokio", "tokio"), ("uring", "uring"), ("uring", "tokio")]:
+        so = opts_for({"SNDHWM": 1000}, sb, 0)
+        ro = opts_for({"RCVHWM": 1000}, rb, 0)
+        cases.append({"k": "pair", "tr": "tcp", "send_type": "PUSH", "recv_type": "PULL", "send_opts": so, "recv_opts": ro, "msgs": msgs,
+                      "idle_ms": 3000, "recv_delay_ms": 0, "recv_sleep_us": 0, "grp": "manyframes", "be": "%s->%s" % (sb, rb),
+                      "cork": 0, "cls": "pair", "limit_s": 90})
+    return cases
+
+
 def d_cork_ipc():
     msgs = [[{"len": 100, "seed": i}] for i in range(3)]
     cases = []
@@ -778,6 +793,8 @@ def main(argv):
         sc = d_rawpeer(r2, 4 if quick else 30)
         sc += d_hostile(r2, names=None if not quick else (["ready_trunc_name", "plain_bad_cmdlen", "more256", "ping_ctx"] if ci == 0 else ["rev9", "error_cmd"]))
         sc += d_pairs(r2, 2 if quick else 12, zc_threshold=4096)
+        if ci == 0 or not quick:
+            sc += d_manyframes()
         if ci == 0 or not quick:
             sc += d_timers() + d_fanin() + d_cork_ipc() + d_peerclose()
         sc += d_churn(30 if quick else (1000 if ci == 0 else 100))
